@@ -252,8 +252,10 @@ static void Probe_New(var self, var args) {
   probe_issue(p, len(args) > 0 ? c_int(get(args, $I(0))) : 0);
 }
 static void Probe_Del(var self) { probe_retire(self); }
+#define PROBE_REFUSED (-770077)      /* a value the type does not take: assigning FROM it raises, before anything is changed */
 static void Probe_Assign(var self, var obj) {
   struct Probe* p = self; struct Probe* o = cast(obj, Probe);
+  if (o->val == PROBE_REFUSED) throw(ValueError, "Probe: refused value %li", $I(o->val));
   if (p->serial == 0 && p->heap == NULL) { probe_issue(p, o->val); return; }   /* into fresh (zeroed) memory */
   if (!probe_is_live(p)) { led_err("assign-over-dead", p->serial); return; }
   p->val = o->val;                                                        /* over a live instance: value replaced */
